@@ -25,7 +25,8 @@ Proof.
 Qed.
 Lemma uc_seen_incl id i c S : incl (seen S) (seen (update_conclusion id i c S)).
 Proof.
-  unfold update_conclusion. destruct c; [apply incl_refl|]. destruct (seenb _ _ _ _ _); [apply incl_refl|].
+  unfold update_conclusion. destruct c; [apply incl_refl|]. destruct (Nat.eqb id (rootsel S)); [|apply incl_refl].
+  destruct (seenb _ _ _ _ _); [apply incl_refl|].
   simpl. apply incl_tl, incl_refl.
 Qed.
 
@@ -93,11 +94,14 @@ Lemma nonempty_union c : nonempty c = true -> union [] c <> [].
 Proof. destruct c; [discriminate|]. intros _. apply union_cons_nonempty. Qed.
 Lemma empty_union a c : nonempty c = false -> union a c = a.
 Proof. destruct c; [reflexivity|discriminate]. Qed.
-Lemma uc_cases id j c S :
+Lemma uc_cases id j c S : rootsel S = id ->
   update_conclusion id j c S =
   if nonempty c && negb (seenb id (negb (getb FLAG id S)) c j S)
   then add_seen (id, negb (getb FLAG id S), c, j) (set DYN id (union (get DYN id S) c) S) else S.
-Proof. unfold update_conclusion. destruct c; [reflexivity|]. cbn [nonempty andb]. destruct (seenb _ _ _ _ _); reflexivity. Qed.
+Proof.
+  intros Hr. unfold update_conclusion. destruct c; [reflexivity|]. rewrite Hr, Nat.eqb_refl. cbn [nonempty andb].
+  destruct (seenb _ _ _ _ _); reflexivity.
+Qed.
 
 Section RootNext.
   Variable W : list elem.
@@ -178,14 +182,14 @@ Section RootNext.
     match c with [] => [] | _ => [(id, tr, c, j)] end.
 
   Lemma uc_explicit tr j c S :
-    getb FLAG id S = negb tr -> fresh_at id j S ->
+    rootsel S = id -> getb FLAG id S = negb tr -> fresh_at id j S ->
     seen (update_conclusion id j c S) = cov_entry tr c j ++ seen S /\
     get DYN id (update_conclusion id j c S) = (match c with [] => get DYN id S | _ => union (get DYN id S) c end) /\
     out (update_conclusion id j c S) = out S /\
     (forall f n, f <> DYN \/ n <> id -> get f n (update_conclusion id j c S) = get f n S).
   Proof.
-    intros Hf Hfr. unfold update_conclusion, cov_entry. destruct c as [|x c]; [repeat split; reflexivity|].
-    rewrite Hf, negb_involutive. rewrite (seenb_fresh _ _ _ _ _ Hfr).
+    intros Hrs Hf Hfr. unfold update_conclusion, cov_entry. destruct c as [|x c]; [repeat split; reflexivity|].
+    rewrite Hrs, Nat.eqb_refl. rewrite Hf, negb_involutive. rewrite (seenb_fresh _ _ _ _ _ Hfr).
     split; [reflexivity|]. split; [rewrite get_add_seen; apply get_set_same|]. split; [reflexivity|].
     intros f n Hn. rewrite get_add_seen. apply get_set_diff. destruct Hn as [Hn|Hn]; [left; congruence|right; congruence].
   Qed.
@@ -195,14 +199,14 @@ Section RootNext.
   Proof. reflexivity. Qed.
 
   Lemma KK1_fire j e cl S1 :
-    get DYN id S1 = [] -> getb REV id S1 = false -> fresh_at id j S1 -> concl_now l S1 = cl ->
+    rootsel S1 = id -> get DYN id S1 = [] -> getb REV id S1 = false -> fresh_at id j S1 -> concl_now l S1 = cl ->
     let S' := KK1 (topk t) (j, e) false S1 in
     out S' = rev (emitq (union [] cl) j) ++ out S1 /\
     seen S' = cov_entry true cl j ++ seen S1 /\
     get DYN id S' = [] /\ getb REV id S' = false /\
-    (forall f n, n <> id -> get f n S' = get f n S1).
+    (forall f n, n <> id -> get f n S' = get f n S1) /\ rootsel S' = rootsel S1.
   Proof.
-    intros Hd Hrev Hfr Hcl. unfold KK1. cbv zeta iota.
+    intros Hrs Hd Hrev Hfr Hcl. unfold KK1. cbv zeta iota.
     set (Sa := setb FLAG id false (setb LEV id true S1)).
     assert (HaLEV : getb LEV id Sa = true).
     { unfold Sa, getb. rewrite get_setb_diff by (left; fne). unfold setb. rewrite get_set_same. reflexivity. }
@@ -216,7 +220,8 @@ Section RootNext.
     { unfold Sa, getb. rewrite !get_setb_diff by (left; fne). exact Hrev. }
     assert (Hafr : fresh_at id j Sa) by exact Hfr.
     unfold sel_post. cbn [fst]. rewrite HaLEV. rewrite Hacl.
-    destruct (uc_explicit true j cl Sa HaFLAG Hafr) as [Us [Ud [Uo Uc]]].
+    destruct (uc_explicit true j cl Sa Hrs HaFLAG Hafr) as [Us [Ud [Uo Uc]]].
+    assert (HUrs : rootsel (update_conclusion id j cl Sa) = rootsel S1) by (rewrite uc_rootsel; reflexivity).
     set (U := update_conclusion id j cl Sa) in *.
     assert (HUREV : getb REV id U = false).
     { unfold getb. rewrite Uc by (left; fne). exact HaREV. }
@@ -236,23 +241,25 @@ Section RootNext.
       + apply get_set_same.
       + unfold getb. rewrite get_set_diff by (left; fne). exact HUREV.
       + intros f n Hn. rewrite get_set_diff by (right; congruence). apply Hrest. exact Hn.
+      + exact HUrs.
     - repeat split.
       + rewrite out_set. cbn [out emit]. rewrite Uo. reflexivity.
       + cbn [seen set emit]. exact Us.
       + apply get_set_same.
       + unfold getb. rewrite get_set_diff by (left; fne). rewrite get_emit. exact HUREV.
       + intros f n Hn. rewrite get_set_diff by (right; congruence). rewrite get_emit. apply Hrest. exact Hn.
+      + exact HUrs.
   Qed.
 
   Lemma KK1_fall j e S1 :
-    get DYN id S1 = [] -> fresh_at id j S1 ->
+    rootsel S1 = id -> get DYN id S1 = [] -> fresh_at id j S1 ->
     let S' := KK1 (topk t) (j, e) true S1 in
     out S' = rev (if holds e csr then emitq (union [] cr) j else []) ++ out S1 /\
     seen S' = cov_entry (holds e csr) cr j ++ seen S1 /\
     get DYN id S' = [] /\ getb REV id S' = false /\
-    (forall f n, n <> id -> n <> idr -> get f n S' = get f n S1).
+    (forall f n, n <> id -> n <> idr -> get f n S' = get f n S1) /\ rootsel S' = rootsel S1.
   Proof.
-    intros Hd Hfr. unfold KK1. cbv zeta iota. cbn [ev r snd].
+    intros Hrs Hd Hfr. unfold KK1. cbv zeta iota. cbn [ev r snd].
     set (fr := negb (holds e csr)).
     set (Sc := setb REV id true (setb FLAG id fr (setb FLAG idr fr (setb LEV id false (setb LEV id true S1))))).
     assert (HcLEV : getb LEV id Sc = false).
@@ -265,7 +272,8 @@ Section RootNext.
     { unfold Sc. rewrite !get_setb_diff by (left; fne). exact Hd. }
     assert (Hcfr : fresh_at id j Sc) by exact Hfr.
     unfold sel_post. cbn [fst]. rewrite HcLEV. rewrite HcREV. cbn [concl_now r].
-    destruct (uc_explicit (holds e csr) j cr Sc HcFLAG Hcfr) as [Us [Ud [Uo Uc]]].
+    destruct (uc_explicit (holds e csr) j cr Sc Hrs HcFLAG Hcfr) as [Us [Ud [Uo Uc]]].
+    assert (HUrs : rootsel (update_conclusion id j cr Sc) = rootsel S1) by (rewrite uc_rootsel; reflexivity).
     set (U := update_conclusion id j cr Sc) in *.
     assert (HUFLAG : getb FLAG id U = negb (holds e csr)).
     { unfold getb. rewrite Uc by (left; fne). exact HcFLAG. }
@@ -284,6 +292,7 @@ Section RootNext.
         * apply (getb_setb_same REV id false).
         * intros f n Hn1 Hn2. rewrite get_setb_diff by (right; congruence). rewrite get_set_diff by (right; congruence).
           apply Hrest; assumption.
+        * exact HUrs.
       + repeat split.
         * unfold setb. rewrite !out_set. cbn [out emit]. rewrite Uo. reflexivity.
         * cbn [seen set setb emit]. exact Us.
@@ -291,6 +300,7 @@ Section RootNext.
         * apply (getb_setb_same REV id false).
         * intros f n Hn1 Hn2. rewrite get_setb_diff by (right; congruence). rewrite get_set_diff by (right; congruence).
           rewrite get_emit. apply Hrest; assumption.
+        * exact HUrs.
     - unfold topk. cbv iota. repeat split.
       + unfold setb. rewrite !out_set, Uo. reflexivity.
       + cbn [seen set setb]. exact Us.
@@ -298,6 +308,7 @@ Section RootNext.
       + apply (getb_setb_same REV id false).
       + intros f n Hn1 Hn2. rewrite get_setb_diff by (right; congruence). rewrite get_set_diff by (right; congruence).
         apply Hrest; assumption.
+      + exact HUrs.
   Qed.
 
   Lemma set_eqb_refl c : set_eqb c c = true.
@@ -333,17 +344,18 @@ Section RootNext.
   Definition Inv1 (j : nat) (S : store) : Prop :=
     (forall e0, In e0 (seen S) -> In (e_node e0) (ids l) \/ e_node e0 = id -> e_idx e0 < j) /\
     dynclear l S /\ get DYN id S = [] /\ getb REV id S = false /\
-    (forall i' e', nth_error W i' = Some e' -> i' < j -> seenb id true cr i' S = covT e').
+    (forall i' e', nth_error W i' = Some e' -> i' < j -> seenb id true cr i' S = covT e') /\ rootsel S = id.
 
   Lemma step1 j e S : Inv1 j S -> nth_error W j = Some e ->
     out (ev W l (Some (j, e)) (KK1 (topk t)) S) = rev (f1 (j, e)) ++ out S /\
     Inv1 (Datatypes.S j) (ev W l (Some (j, e)) (KK1 (topk t)) S).
   Proof.
-    intros [Ha [Hdcl [Hdid [Hrev Hd]]]] Hnth.
+    intros [Ha [Hdcl [Hdid [Hrev [Hd Hroot]]]]] Hnth.
     assert (Hfr : fresh l j S).
     { intros e0 He0 Hn Hx. specialize (Ha e0 He0 (or_introl Hn)). unfold e_idx in *. lia. }
     destruct (ev_bound W l Hnf Hndl j e (KK1 (topk t)) S Hfr Hdcl KK1_keeps)
-      as [S1l [[Ho [Hout [Hseen [Hfl Hcl]]]] [Hf1 [Hf2 [Hf3 Hf4]]]]].
+      as [S1l [[[Ho [Hout [Hseen [Hfl Hcl]]]] Hrs1] [[Hf1 [Hf2 [Hf3 Hf4]]] Hf5]]].
+    assert (Hroot1 : rootsel S1l = id) by (rewrite Hrs1; exact Hroot).
     assert (Hmono : incl (seen S) (seen (ev W l (Some (j, e)) (KK1 (topk t)) S))) by (apply ev_seen_incl; [exact Hnf|apply KK1_mono]).
     assert (Hid1 : forall f, get f id S1l = get f id S) by (intros f; apply Hout; exact Hidl).
     assert (Hfr1 : fresh_at id j S1l).
@@ -359,15 +371,20 @@ Section RootNext.
        get DYN id (KK1 (topk t) (j, e) (fst (pe l e)) S1l) = [] /\
        getb REV id (KK1 (topk t) (j, e) (fst (pe l e)) S1l) = false /\
        rows = f1 (j, e) /\
-       (nonempty c && Bool.eqb tr true && set_eqb c cr) = covT e).
+       (nonempty c && Bool.eqb tr true && set_eqb c cr) = covT e /\
+       rootsel (KK1 (topk t) (j, e) (fst (pe l e)) S1l) = id).
     { unfold f1, covT. cbn [fst snd]. destruct (pe l e) as [fl cl] eqn:Epl. cbn [fst snd] in *. destruct fl.
-      - destruct (KK1_fall j e S1l Hd1 Hfr1) as [K1 [K2' [K3 [K4 _]]]].
+      - destruct (KK1_fall j e S1l Hroot1 Hd1 Hfr1) as [K1 [K2' [K3 [K4 [_ K5]]]]].
         exists (holds e csr), cr, (if holds e csr then emitq (union [] cr) j else []).
-        repeat split; try assumption. rewrite set_eqb_refl. destruct (holds e csr), (nonempty cr); reflexivity.
-      - destruct (KK1_fire j e cl S1l Hd1 Hr1 Hfr1 Hcl) as [K1 [K2' [K3 [K4 _]]]].
-        exists true, cl, (emitq (union [] cl) j). repeat split; try assumption.
-        destruct (nonempty cl), (set_eqb cl cr); reflexivity. }
-    destruct HK as [tr [c [rows [K1 [K2' [K3 [K4 [Krows Kcov]]]]]]]].
+        refine (conj K1 (conj K2' (conj K3 (conj K4 (conj eq_refl (conj _ _)))))).
+        + rewrite set_eqb_refl. destruct (holds e csr), (nonempty cr); reflexivity.
+        + rewrite K5. exact Hroot1.
+      - destruct (KK1_fire j e cl S1l Hroot1 Hd1 Hr1 Hfr1 Hcl) as [K1 [K2' [K3 [K4 [_ K5]]]]].
+        exists true, cl, (emitq (union [] cl) j).
+        refine (conj K1 (conj K2' (conj K3 (conj K4 (conj eq_refl (conj _ _)))))).
+        + destruct (nonempty cl), (set_eqb cl cr); reflexivity.
+        + rewrite K5. exact Hroot1. }
+    destruct HK as [tr [c [rows [K1 [K2' [K3 [K4 [Krows [Kcov Kroot]]]]]]]]].
     set (Sf := ev W l (Some (j, e)) (KK1 (topk t)) S) in *.
     split.
     - rewrite Hf1, K1, Ho, Krows. reflexivity.
@@ -393,6 +410,7 @@ Section RootNext.
           -- intros Hin. rewrite Hf3, K2' in Hin. apply in_app_or in Hin. destruct Hin as [Hin|Hin]; [left; exact Hin|].
              destruct (Hseen e0 Hin) as [Hs|[_ Hs]]; [right; exact Hs|]. red in Hs. rewrite Hm1 in Hs. destruct (Hidl Hs).
           -- intros [Hin|Hin]; [rewrite Hf3, K2'; apply in_or_app; left; exact Hin|apply Hmono; exact Hin].
+      + rewrite Hf5. exact Kroot.
   Qed.
 
   Lemma pass1 L : forall j S, Inv1 j S ->
@@ -416,13 +434,13 @@ Section RootNext.
   (* ---- second pass ---- *)
   Definition Inv2 (j : nat) (S : store) : Prop :=
     get DYN id S = [] /\ getb LEV id S = false /\
-    (forall i' e', nth_error W i' = Some e' -> j <= i' -> seenb id true cr i' S = covT e').
+    (forall i' e', nth_error W i' = Some e' -> j <= i' -> seenb id true cr i' S = covT e') /\ rootsel S = id.
 
   Lemma step2 j e S : Inv2 j S -> nth_error W j = Some e ->
     let Sf := K2 (topk t) (j, e) (negb (holds e csr)) (setb FLAG idr (negb (holds e csr)) S) in
     out Sf = rev (f2 (j, e)) ++ out S /\ Inv2 (Datatypes.S j) Sf.
   Proof.
-    intros [Hd [Hlev Hc]] Hnth. unfold K2, f2. cbv zeta. cbn [fst snd].
+    intros [Hd [Hlev [Hc Hroot]]] Hnth. unfold K2, f2. cbv zeta. cbn [fst snd].
     set (fr := negb (holds e csr)).
     set (Sc := setb REV id true (setb FLAG id fr (setb FLAG idr fr S))).
     assert (HcLEV : getb LEV id Sc = false).
@@ -438,7 +456,7 @@ Section RootNext.
       assert (HcFLAG : getb FLAG id Sc = false).
       { unfold Sc, getb. rewrite get_setb_diff by (left; fne). apply (getb_setb_same FLAG id false). }
       assert (Hcov : seenb id true cr j Sc = covT e) by (rewrite Hcs; apply Hc; [exact Hnth|lia]).
-      rewrite uc_cases. rewrite HcFLAG. cbn [negb]. rewrite Hcov.
+      rewrite uc_cases by exact Hroot. rewrite HcFLAG. cbn [negb]. rewrite Hcov.
       destruct (nonempty cr && negb (covT e)) eqn:Esel.
       + (* selected and emitted *)
         apply andb_prop in Esel. destruct Esel as [Ene Ecov]. rewrite Ecov.
@@ -450,7 +468,7 @@ Section RootNext.
         { unfold U. rewrite get_add_seen, get_set_same, HcDYN. reflexivity. }
         rewrite HUD. pose proof (nonempty_union cr Ene) as Hne.
         destruct (union [] cr) as [|y ys] eqn:Eu; [congruence|].
-        cbn [emitq rev app]. split; [reflexivity|]. refine (conj _ (conj _ _)).
+        cbn [emitq rev app]. split; [reflexivity|]. refine (conj _ (conj _ (conj _ Hroot))).
         * apply get_set_same.
         * exact HcLEV.
         * intros i' e' Hn Hle.
@@ -463,12 +481,12 @@ Section RootNext.
         assert (Hrows : (if negb (covT e) then emitq (union [] cr) j else []) = []).
         { destruct (covT e); [reflexivity|]. cbn [negb] in *. rewrite andb_true_r in Esel.
           rewrite (empty_union [] cr Esel). reflexivity. }
-        rewrite Hrows. split; [reflexivity|]. refine (conj _ (conj _ _)).
+        rewrite Hrows. split; [reflexivity|]. refine (conj _ (conj _ (conj _ Hroot))).
         * apply get_set_same.
         * unfold getb. rewrite get_set_diff by (left; fne). exact HcLEV.
         * intros i' e' Hn Hle. apply Hc; [exact Hn|lia].
     - (* r does not hold: the false row is dropped *)
-      split; [reflexivity|]. refine (conj _ (conj _ _)).
+      split; [reflexivity|]. refine (conj _ (conj _ (conj _ Hroot))).
       + exact HcDYN.
       + exact HcLEV.
       + intros i' e' Hn Hle. rewrite Hcs. apply Hc; [exact Hn|lia].
@@ -497,26 +515,28 @@ Section RootNext.
               if f then S else match concl_now t S with [] => S | c => emit (c, fst ie) S end) with (topk t).
     rewrite ev_next_eq. unfold setb at 1. rewrite out_set.
     rewrite (ev_unbound W l Hnf).
-    assert (HI0 : Inv1 0 init).
-    { unfold Inv1. refine (conj _ (conj _ (conj _ (conj _ _)))).
+    assert (HI0 : Inv1 0 (init_root id)).
+    { unfold Inv1. refine (conj _ (conj _ (conj _ (conj _ (conj _ _))))).
       - intros e0 [].
       - intros n Hn. reflexivity.
       - reflexivity.
       - reflexivity.
-      - intros i' e' Hn Hlt. lia. }
-    destruct (pass1 W 0 init HI0) as [Ho1 HI1]; [intros k e Hk; exact Hk|].
+      - intros i' e' Hn Hlt. lia.
+      - reflexivity. }
+    destruct (pass1 W 0 (init_root id) HI0) as [Ho1 HI1]; [intros k e Hk; exact Hk|].
     unfold enum. unfold binding in *.
-    remember (fold_left (fun (S : store) (ie : nat * elem) => ev W l (Some ie) (KK1 (topk t)) S) (enum_from 0 W) init) as S1 eqn:ES1 in *.
-    destruct HI1 as [_ [_ [Hd1 [_ Hc1]]]].
+    change (root_id t) with id.
+    remember (fold_left (fun (S : store) (ie : nat * elem) => ev W l (Some ie) (KK1 (topk t)) S) (enum_from 0 W) (init_root id)) as S1 eqn:ES1 in *.
+    destruct HI1 as [_ [_ [Hd1 [_ [Hc1 Hroot1]]]]].
     assert (HI2 : Inv2 0 (setb LEV id false S1)).
-    { unfold Inv2. refine (conj _ (conj _ _)).
+    { unfold Inv2. refine (conj _ (conj _ (conj _ Hroot1))).
       - rewrite get_setb_diff by (left; fne). exact Hd1.
       - apply (getb_setb_same LEV id false).
       - intros i' e' Hn _. change (seenb id true cr i' (setb LEV id false S1)) with (seenb id true cr i' S1).
         apply Hc1; [exact Hn|]. apply nth_error_Some. congruence. }
     change (rev (out (fold_left one2 (enum_from 0 W) (setb LEV id false S1))) = flat_map f1 (enum_from 0 W) ++ flat_map f2 (enum_from 0 W)).
     rewrite (pass2 W 0 _ HI2); [|intros k e Hk; exact Hk].
-    unfold setb at 1. rewrite out_set. rewrite Ho1. cbn [out init]. rewrite app_nil_r.
+    unfold setb at 1. rewrite out_set. rewrite Ho1. cbn [out init_root]. rewrite app_nil_r.
     rewrite rev_app_distr, !rev_involutive. reflexivity.
   Qed.
 End RootNext.
